@@ -33,6 +33,7 @@ from ..core import Violation, HarnessError, arrays_close, close
 from ..machine import Machine
 from ..seams.provider import SimAtomicData, _u
 from ..seams.simfunc import SimFault, SimInterrupt
+from .c18_laser import PROFILE_ATTRS as LP_ATTRS, SPECTRUM_ATTRS as LS_ATTRS, construct as laser_construct
 
 EL = {"H": hydrogen, "D": deuterium, "He": helium, "C": carbon, "Ne": neon}
 MASS = {"H": 1.008, "D": 2.014, "He": 4.0026, "C": 12.011, "Ne": 20.18}
@@ -165,6 +166,41 @@ def gen_beam_value(rng, attr):
 PAIRS = [[("D", 0), ("D", 1)], [("He", 1), ("He", 2)], [("C", 5), ("C", 6)], [("Ne", 9), ("Ne", 10)]]
 
 
+def gen_laser_profile(rng):
+    kind = rng.choice(["uniform", "bivariate", "trivariate", "gaussbeam"])
+    spec = {"laser_length": round(rng.uniform(2.2, 3.2), 3), "laser_radius": round(rng.uniform(0.08, 0.22), 3),
+            "polarization": gen_unit(rng)}
+    if kind == "uniform":
+        spec["energy_density"] = float("%.4g" % rng.uniform(1.0, 50.0))
+    else:
+        spec["pulse_energy"] = float("%.4g" % rng.uniform(0.5, 5.0))
+        spec["pulse_length"] = float("%.4g" % rng.uniform(5e-9, 3e-8))
+    if kind in ("bivariate", "trivariate"):
+        spec["stddev_x"] = round(rng.uniform(0.03, 0.1), 4)
+        spec["stddev_y"] = round(rng.uniform(0.03, 0.1), 4)
+    if kind == "trivariate":
+        spec["mean_z"] = round(rng.uniform(0.8, 2.0), 3)
+    if kind == "gaussbeam":
+        spec["waist_z"] = round(rng.uniform(0.8, 2.0), 3)
+        spec["stddev_waist"] = round(rng.uniform(0.02, 0.06), 4)
+        spec["laser_wavelength"] = 532.0
+    return {"kind": kind, "spec": spec}
+
+
+def gen_laser_spectrum(rng):
+    lo = round(rng.uniform(520.0, 540.0), 2)
+    if rng.random() < 0.5:
+        return {"kind": "constspec", "spec": {"min_wavelength": lo, "max_wavelength": round(lo + rng.uniform(0.5, 3.0), 2), "bins": rng.choice([1, 2, 3])}}
+    return {"kind": "gaussspec", "spec": {"min_wavelength": lo, "max_wavelength": round(lo + 3.0, 2), "bins": rng.choice([1, 3, 5]),
+                                         "mean": round(lo + rng.uniform(0.5, 2.5), 2), "stddev": round(rng.uniform(0.2, 1.0), 3)}}
+
+
+def gen_laser(rng, npl):
+    return {"parent": rng.choice(["frame", "world"]), "transform": gen_transform(rng, toward_origin=True, dist=rng.uniform(1.2, 1.6)),
+            "plasma": rng.randrange(npl), "importance": rng.choice([1.0, 1.0, 3.0]), "profile": gen_laser_profile(rng),
+            "spectrum": gen_laser_spectrum(rng), "models": rng.choice([1, 1, 1, 0]), "integrator_step": rng.choice([0.02, 0.035, 0.05])}
+
+
 def gen_composition(rng):
     # neighbouring charge states come in pairs (recombination / CX / total-radiation models need both);
     # a member is dropped now and then so that "species missing" paths stay reachable
@@ -200,9 +236,24 @@ def gen_beam(rng, nprov, plasmas, pi):
     return b
 
 
+def axis_point(spec, kind, i, z):
+    """World position (at generation time) of the point (0, 0, z) of a beam / laser axis."""
+    es = spec["beams"][i] if kind == "b" else spec["laser"]
+    m = mk_transform(es["transform"])
+    if es["parent"] == "frame":
+        m = mk_transform(spec["frames"]["f%s%d" % (kind, i)]) * m
+    pt = Point3D(0, 0, z).transform(m)
+    return [pt.x, pt.y, pt.z]
+
+
 def gen_ray(rng, spec):
     d = gen_unit(rng)
     p = [rng.uniform(-0.25, 0.25) for _ in range(3)]
+    targets = [("b", i) for i in range(len(spec["beams"]))] + ([("l", 0)] if spec.get("laser") else [])
+    if targets and rng.random() < 0.5:
+        kind, i = rng.choice(targets)
+        p = axis_point(spec, kind, i, rng.uniform(0.9, 1.9))
+        p = [c + rng.uniform(-0.03, 0.03) for c in p]
     o = [round(pc - 3.0 * dc, 4) for pc, dc in zip(p, d)]
     lines = []
     for pl in spec["plasmas"]:
@@ -269,6 +320,35 @@ def apply_spec(sp, op):
             ps["transform"] = op["t"]
         elif k == "p.parent":
             ps["parent"] = op["to"]
+        return
+    if k.startswith("l."):
+        ls = sp.get("laser")
+        if not ls:
+            return
+        if k == "l.profile.set":
+            if op["attr"] in ls["profile"]["spec"]:
+                ls["profile"]["spec"][op["attr"]] = op["value"]
+        elif k == "l.profile.polarize":
+            ls["profile"]["spec"]["polarization"] = op["v"]
+        elif k == "l.profile":
+            ls["profile"] = copy.deepcopy(op["profile"])
+        elif k == "l.spectrum":
+            ls["spectrum"] = copy.deepcopy(op["spectrum"])
+        elif k == "l.spectrum.set":
+            if op["attr"] in ls["spectrum"]["spec"]:
+                ls["spectrum"]["spec"][op["attr"]] = op["value"]
+        elif k == "l.plasma":
+            ls["plasma"] = op["to"] % len(sp["plasmas"])
+        elif k == "l.importance":
+            ls["importance"] = op["value"]
+        elif k == "l.integrator":
+            ls["integrator_step"] = op["step"]
+        elif k == "l.models":
+            ls["models"] = op["n"]
+        elif k == "l.transform":
+            ls["transform"] = op["t"]
+        elif k == "l.parent":
+            ls["parent"] = op["to"]
         return
     if not k.startswith("b.") or not sp["beams"]:
         return
@@ -385,6 +465,7 @@ class Scene:
         self.counter = [0]
         self.fault_at = {}
         self.fired = []
+        self.laser = None
 
 
 def build_scene(spec):
@@ -399,6 +480,7 @@ def build_scene(spec):
         s.plasmas.append(build_plasma(s, spec, i))
     for i, bs in enumerate(spec["beams"]):
         s.beams.append(build_beam(s, spec, i))
+    s.laser = build_laser(s, spec) if spec.get("laser") else None
     return s
 
 
@@ -439,6 +521,20 @@ def build_beam(s, spec, i):
     if bs["models"]:
         b.models = [mk_beam_model(m) for m in bs["models"]]
     return b
+
+
+def build_laser(s, spec):
+    ls = spec["laser"]
+    l = Laser(parent=(s.world if ls["parent"] == "world" else (s.frames["fl0"] if ls["parent"] == "frame" else None)),
+              transform=mk_transform(ls["transform"]), name="laser")
+    l.integrator = NumericalIntegrator(step=ls["integrator_step"])
+    l.plasma = s.plasmas[ls["plasma"]]
+    l.laser_spectrum = laser_construct(ls["spectrum"]["kind"], ls["spectrum"]["spec"])
+    l.laser_profile = laser_construct(ls["profile"]["kind"], ls["profile"]["spec"])
+    l.importance = ls["importance"]
+    if ls["models"]:
+        l.models = [SeldenMatobaThomsonSpectrum() for _ in range(ls["models"])]
+    return l
 
 
 BEAM_POINTS = [(0.0, 0.0, 0.4), (0.03, -0.02, 1.1), (-0.05, 0.04, 1.7), (0.0, 0.0, 2.6), (0.1, 0.1, 0.9), (0.0, 0.0, -0.2),
@@ -489,6 +585,10 @@ class SceneMachine(Machine):
         for i in range(nb):
             spec["beams"].append(gen_beam(rng, nprov, spec["plasmas"], rng.randrange(npl)))
             spec["frames"]["fb%d" % i] = gen_transform(rng, 0.1)
+        spec["laser"] = None
+        if rng.random() < 0.35:
+            spec["laser"] = gen_laser(rng, npl)
+            spec["frames"]["fl0"] = gen_transform(rng, 0.1)
         if fault_mode == "persistent":
             pv = rng.choice(spec["providers"])
             for _ in range(rng.randint(1, 2)):
@@ -533,6 +633,9 @@ class SceneMachine(Machine):
             k += ["b.set", "b.set", "b.element", "b.atomic_data", "b.plasma", "b.attenuator", "b.att.step", "b.att.clamp_sigma",
                   "b.models.set", "b.models.add", "b.models.clear", "b.model.line", "b.integrator", "b.transform", "b.parent",
                   "b.recreate", "b.reject"]
+        if spec.get("laser"):
+            k += ["l.profile.set", "l.profile.set", "l.profile.polarize", "l.profile", "l.spectrum", "l.spectrum.set", "l.plasma",
+                  "l.importance", "l.integrator", "l.models", "l.transform", "l.parent", "l.recreate"]
         return k
 
     def _gen_mutator(self, rng, spec, kind, nprov):
@@ -584,6 +687,42 @@ class SceneMachine(Machine):
             names = sorted(spec["frames"])
             op["name"] = rng.choice(names)
             op["t"] = gen_transform(rng, 0.15)
+        elif kind.startswith("l."):
+            ls = spec.get("laser")
+            if not ls:
+                return None
+            if kind == "l.profile.set":
+                attrs = [a for a in ls["profile"]["spec"] if a != "polarization"]
+                a = rng.choice(attrs)
+                fresh = gen_laser_profile(rng)
+                while a not in fresh["spec"]:
+                    fresh = gen_laser_profile(rng)
+                op["attr"], op["value"] = a, fresh["spec"][a]
+            elif kind == "l.profile.polarize":
+                op["v"] = gen_unit(rng)
+            elif kind == "l.profile":
+                op["profile"] = gen_laser_profile(rng)
+            elif kind == "l.spectrum":
+                op["spectrum"] = gen_laser_spectrum(rng)
+            elif kind == "l.spectrum.set":
+                a = rng.choice([x for x in ls["spectrum"]["spec"]])
+                fresh = gen_laser_spectrum(rng)
+                while a not in fresh["spec"]:
+                    fresh = gen_laser_spectrum(rng)
+                op["attr"], op["value"] = a, fresh["spec"][a]
+            elif kind == "l.plasma":
+                op["to"] = rng.randrange(npl)
+            elif kind == "l.importance":
+                op["value"] = rng.choice([0.5, 1.0, 2.0, 4.0])
+            elif kind == "l.integrator":
+                op["step"] = rng.choice([0.02, 0.03, 0.05, 0.07])
+                op["inplace"] = rng.random() < 0.5
+            elif kind == "l.models":
+                op["n"] = rng.choice([0, 1, 1, 2])
+            elif kind == "l.transform":
+                op["t"] = gen_transform(rng, toward_origin=True, dist=rng.uniform(1.1, 1.7))
+            elif kind == "l.parent":
+                op["to"] = rng.choice(["frame", "world", "frame", "world", "none"])
         elif kind.startswith("b."):
             if not nb:
                 return None
@@ -798,8 +937,9 @@ class SceneMachine(Machine):
 
     def _state(self, c, env, opk):
         sp = c.spec
-        shape = "p%d|b%d|m%d|bm%d" % (len(sp["plasmas"]), len(sp["beams"]), min(sum(len(p["models"]) for p in sp["plasmas"]), 3),
-                                       min(sum(len(b["models"]) for b in sp["beams"]), 3))
+        shape = "p%d|b%d|m%d|bm%d|l%s" % (len(sp["plasmas"]), len(sp["beams"]), min(sum(len(p["models"]) for p in sp["plasmas"]), 3),
+                                          min(sum(len(b["models"]) for b in sp["beams"]), 3),
+                                          "-" if not sp.get("laser") else str(sp["laser"]["models"]))
         env.state("%s|o%d|s%d|k%d|f%d" % (shape, c.observed, c.mutated_after_obs, min(len(c.kept), 2), min(c.fault_fired, 2)), opk)
 
     def _full_check(self, c, env, after):
@@ -886,12 +1026,16 @@ class SceneMachine(Machine):
                 for j, bs in enumerate(sp["beams"]):
                     if bs["plasma"] == i:
                         s.beams[j].plasma = new
+                if s.laser is not None and sp["laser"]["plasma"] == i:
+                    s.laser.plasma = new
                 self._dispose(c, op, old)
                 del old, p
                 env.probe("plasma_node_recreated")
             else:
                 return "noop"
             return "ok"
+        if k.startswith("l."):
+            return self._mutate_laser(c, op, env)
         if not s.beams:
             return "noop"
         i = op["i"] % len(s.beams)
@@ -960,6 +1104,64 @@ class SceneMachine(Machine):
             self._dispose(c, op, old)
             del old, b
             env.probe("beam_node_recreated")
+        else:
+            return "noop"
+        return "ok"
+
+    def _mutate_laser(self, c, op, env):
+        k = op["op"]
+        s, sp = c.scene, c.spec
+        l, ls = s.laser, sp.get("laser")
+        if l is None or not ls:
+            return "noop"
+        if k == "l.profile.set":
+            if op["attr"] not in ls["profile"]["spec"]:
+                return "noop"
+            setattr(l.laser_profile, op["attr"], op["value"])
+        elif k == "l.profile.polarize":
+            l.laser_profile.set_polarization(Vector3D(*op["v"]))
+        elif k == "l.profile":
+            self._dispose(c, op, l.laser_profile)
+            l.laser_profile = laser_construct(op["profile"]["kind"], op["profile"]["spec"])
+        elif k == "l.spectrum":
+            self._dispose(c, op, l.laser_spectrum)
+            l.laser_spectrum = laser_construct(op["spectrum"]["kind"], op["spectrum"]["spec"])
+        elif k == "l.spectrum.set":
+            if op["attr"] not in ls["spectrum"]["spec"]:
+                return "noop"
+            try:
+                setattr(l.laser_spectrum, op["attr"], op["value"])
+            except ValueError:
+                return "raised:ValueError"        # min >= max etc.: refused, specification unchanged
+        elif k == "l.plasma":
+            l.plasma = s.plasmas[op["to"] % len(s.plasmas)]
+        elif k == "l.importance":
+            l.importance = op["value"]
+        elif k == "l.integrator":
+            if op.get("inplace"):
+                l.integrator.step = op["step"]
+            else:
+                self._dispose(c, op, l.integrator)
+                try:
+                    l.integrator = NumericalIntegrator(step=op["step"])
+                except AttributeError:
+                    # segments without an emitting material: the value is stored nevertheless (observed, not judged)
+                    env.probe("laser_integrator_setter_raised")
+        elif k == "l.models":
+            if op.get("keep"):
+                c.kept.append(list(l.models))
+            l.models = [SeldenMatobaThomsonSpectrum() for _ in range(op["n"])]
+        elif k == "l.transform":
+            l.transform = mk_transform(op["t"])
+        elif k == "l.parent":
+            l.parent = s.world if op["to"] == "world" else (s.frames["fl0"] if op["to"] == "frame" else None)
+        elif k == "l.recreate":
+            old = l
+            old.parent = None
+            s.laser = build_laser(s, sp)
+            self._dispose(c, op, old)
+            del old, l
+            env.probe("laser_node_recreated")
         else:
             return "noop"
         return "ok"
